@@ -1,6 +1,7 @@
 package main
 
 import (
+	"crypto/elliptic"
 	"bytes"
 	"context"
 	"crypto"
@@ -622,6 +623,40 @@ func c04Extend(x *runCtx, ov *fdo.Voucher, k lab.Kind, signer, next string, enc 
 		}
 	}
 	try("current-owner", k, signer, k, next, true)
+	// a next owner whose public key has a coordinate with a leading zero octet (one key in 128): extension, verification and
+	// the owner key read back have to work for it like for any other key, in every key encoding
+	if k.RSABits == 0 {
+		curve := elliptic.P256()
+		if k.Name == "P-384" {
+			curve = elliptic.P384()
+		}
+		for _, wantY := range []bool{false, true} {
+			sk := lab.ShortCoordKey(curve, wantY)
+			var ext *fdo.Voucher
+			var err error
+			res := step(func() error { ext, err = lab.ExtendWith(ov, lab.Key(k.PoolKey+"/"+signer), sk.Public()); return err })
+			input := fmt.Sprintf("extend %s/%s signer=%s next=a key whose %s coordinate has a leading zero octet (scalar %v) entries=%d", k.Name, enc, signer,
+				map[bool]string{false: "x", true: "y"}[wantY], sk.D, len(ov.Entries))
+			x.r.Case(input, true, "extend:short-coordinate")
+			switch {
+			case res != "ok":
+				x.r.Violate(rep.Violation{Kind: "oracle", Check: "C04.extend", Signature: "C04.extend:short-coordinate-key-refused", Input: input, Impl: fmt.Sprint(res, " ", err), PropertyFails: true})
+			default:
+				// through the wire form, as a receiver sees it
+				var back fdo.Voucher
+				if uerr := cbor.Unmarshal(cborBytes(ext), &back); uerr != nil {
+					x.r.Violate(rep.Violation{Kind: "oracle", Check: "C04.extend", Signature: "C04.extend:short-coordinate-voucher-undecodable", Input: input, Impl: uerr.Error(), PropertyFails: true})
+					break
+				}
+				if verr := back.VerifyEntries(); verr != nil {
+					x.r.Violate(rep.Violation{Kind: "oracle", Check: "C04.extend", Signature: "C04.extend:short-coordinate-result-does-not-verify", Input: input, Impl: verr.Error(), PropertyFails: true})
+				}
+				if pub, perr := back.OwnerPublicKey(); perr != nil || !sk.PublicKey.Equal(pub) {
+					x.r.Violate(rep.Violation{Kind: "oracle", Check: "C04.extend", Signature: "C04.extend:short-coordinate-owner-not-last-extension", Input: input, Impl: fmt.Sprint(perr), PropertyFails: true})
+				}
+			}
+		}
+	}
 	// vouchers are values: extending the same voucher a second time (to another buyer) must leave the first result as it was
 	func() {
 		other := "own1"
